@@ -74,7 +74,6 @@ class Obs:
 
     def nontrivial(self, key=None):
         """Mark a distinct non-trivial evaluation (default key: this case)."""
-        if key is None:
-            key = self.case_hash
+        key = self.case_hash if key is None else jhash(key)
         if len(self.nt_keys) < 200000:
-            self.nt_keys.add(key if isinstance(key, str) else jhash(key))
+            self.nt_keys.add(key)
